@@ -305,7 +305,13 @@ let process_trace header lines =
              (* the solver's answer: optimal? (C16 limits: checked per answer) *)
              (match w.w_mask with
              | Some masks when coupled <> [] ->
-                 if not (answer_optimal true before_free before !weights es masks) then fail "C16" "solver-suboptimal" ("claim solve, request " ^ rq_s)
+                 (* the claim solve carries tie-breaking terms (-units/32, fraction bonus) that are smaller than HiGHS'
+                    relative MIP gap once coupling weights are in play: an answer that is optimal for the number of
+                    groups and the coupling weights but not for the tie-break is tagged, not a failure *)
+                 if not (answer_optimal true before_free before !weights es masks) then begin
+                   if answer_optimal false before_free before !weights es masks then tag "tie-break-suboptimal"
+                   else fail "C16" "solver-suboptimal" ("claim solve, request " ^ rq_s)
+                 end
              | _ -> ());
              (match w.w_adm with
              | Some masks when coupled <> [] ->
